@@ -66,7 +66,7 @@ func init() {
 		return runTwoChain(c18)(r)
 	}
 	core.Register(&core.Scenario{ID: "C18", Level: "exploration", Run: runC18, Components: comp, Assumptions: append(append([]string{}, assume...), "Go map iteration order cannot be seeded: independent replicas in one process get independent orders, so an order dependence over n entries escapes one comparison with probability about 1/n! and a replay reports the divergence rate over repeated executions rather than bit-exact reproduction"),
-		Rule: "every block of a two-chain history (with admin traffic and executor-change plans so that several validators leave in one block) is also executed on two independent replicas per chain: one crashed and restarted before blocks and between FinalizeBlock and Commit, one receiving CheckTx / simulate / query traffic between blocks; oracle: identical tx results (code, data, gas, events in order), validator updates in order, block events, app hash and raw store contents after every block; non-trivial = >=2 deposits, >=1 withdrawal, >=1 successful claim",
-		QuickRuns: 500, QuickSecs: 75, ThoroughRuns: 10000, ThoroughSecs: 800,
-		RequiredProbes: []string{"replica.compared", "replica.compared-multi-validator-update"}})
+		Rule: "every block of a two-chain history (with admin traffic and executor-change plans so that several validators leave in one block) is also executed on two independent replicas per chain: one crashed and restarted before blocks and between FinalizeBlock and Commit, one receiving CheckTx / simulate / query traffic between blocks, both under another local time zone than the main node and in half of the blocks executing at the same time on separate threads; the main node itself serves client traffic on discarded branches and meets aborted optimistic executions; one run in four is the oracle-relay scenario (honest, stale, replayed and Byzantine price updates, light-client refreshes) under the same replicas; oracle: identical tx results (code, data, gas, events in order, error text), validator updates in order, block events, app hash and raw store contents after every block; non-trivial = >=2 deposits, >=1 withdrawal, >=1 successful claim",
+		QuickRuns: 800, QuickSecs: 75, ThoroughRuns: 12000, ThoroughSecs: 800,
+		RequiredProbes: []string{"replica.compared", "replica.compared-multi-validator-update", "replica.oracle-scenario"}})
 }
